@@ -542,11 +542,25 @@ theorem kill_wholeLine_is_span (S : Segmenter) (U : UData) (hnl : S.NlAlone) (lb
   generalize hls : lineStartOf lb.buf lb.pos = ls at *
   have hwf1 : WF { lb with pos := ls } := hlsb
   have hle1 : lineEndOf lb.buf ls = lineEndOf lb.buf lb.pos := by rw [← hls]; exact lineEndOf_lineStartOf lb h
+  have hel0 := endOfLine_eq _ hwf1
+  simp only [hle1] at hel0
+  by_cases hlt0 : ls < lineEndOf lb.buf lb.pos
+  · -- a non-empty line: one drain from the line start, reported around the old cursor
+    obtain ⟨x, y, z, d, hd, hbuf, hx, hy⟩ := drainAround_ok (lb := { lb with pos := ls }) lb.pos hlsb hleb h (by omega)
+    simp [LB.kill, LM.bind_apply, LM.notify, LM.get, hhome, LM.ro, hel0, hlt0, hd] at hrun
+    obtain ⟨rfl, rfl, rfl⟩ := hrun
+    have hemp : lb.buf.isEmpty = false := by
+      rw [hbuf]
+      cases y with
+      | nil => simp at hy; omega
+      | cons c t => cases x <;> simp
+    exact checkKill_span (a := ls) (b := lineEndOf lb.buf lb.pos) (x := x) (y := y) (z := z)
+      (by simp [spanOf, hemp, hls, hlt0]) hbuf hx hy rfl (by simp [killedText]) rfl
   cases hkl : LB.killLine S U { lb with pos := ls } with
-  | error e => simp [LB.kill, LM.bind_apply, LM.notify, hhome, hkl] at hrun
+  | error e => simp [LB.kill, LM.bind_apply, LM.notify, LM.get, hhome, LM.ro, hel0, hlt0, hkl] at hrun
   | ok v =>
     obtain ⟨r1, lb1, n1⟩ := v
-    simp [LB.kill, LM.bind_apply, LM.notify, hhome, hkl] at hrun
+    simp [LB.kill, LM.bind_apply, LM.notify, LM.get, hhome, LM.ro, hel0, hlt0, hkl] at hrun
     obtain ⟨rfl, rfl, rfl⟩ := hrun
     rw [checkKill_congr (killedText_wrap n1)]
     -- analyse `kill_line` from the line start
@@ -761,19 +775,22 @@ theorem kill_wholeBuffer_is_span (S : Segmenter) (U : UData) (lb lb' : LB) (r : 
       simp [LM.bind_apply, LM.get, hgt]
       cases lb; simp at this ⊢; exact this
   have hwf0 : WF { lb with pos := 0 } := isBoundary_zero _
-  cases hkb : LB.killBuffer S U { lb with pos := 0 } with
-  | error e => simp [LB.kill, LM.bind_apply, LM.notify, hstart, hkb] at hrun
-  | ok v =>
-    obtain ⟨r1, lb1, n1⟩ := v
-    simp [LB.kill, LM.bind_apply, LM.notify, hstart, hkb] at hrun
+  by_cases hemp : lb.buf = []
+  · simp [LB.kill, LM.bind_apply, LM.notify, LM.get, hstart, hemp] at hrun
     obtain ⟨rfl, rfl, rfl⟩ := hrun
-    rw [checkKill_congr (killedText_wrap n1)]
-    have := killBuffer_is_span S U _ lb1 r1 n1 hwf0 hkb
-    -- `EndOfBuffer` from offset 0 and `WholeBuffer` name the same span
-    unfold checkKill at this ⊢
-    have hs : spanOf S U lb.buf lb.pos .wholeBuffer false = spanOf S U lb.buf 0 .endOfBuffer false := by
-      simp [spanOf]
-    rw [hs]; exact this
+    exact checkKill_nothing (by simp [spanOf, hemp]) (by simp [hemp])
+  · obtain ⟨x, y, z, d, hd, hbuf, hx, hy⟩ := drainAround_ok (lb := { lb with pos := 0 }) lb.pos hwf0
+      (isBoundary_len lb.buf) h (Nat.zero_le _)
+    have hd' : LB.drainAround 0 (blen lb.buf) lb.pos { lb with pos := 0 } = _ := hd
+    simp [LB.kill, LM.bind_apply, LM.notify, LM.get, hstart, hemp, LB.len, hd'] at hrun
+    obtain ⟨rfl, rfl, rfl⟩ := hrun
+    have hemp' : lb.buf.isEmpty = false := by simpa using hemp
+    have hpos : 0 < blen lb.buf := by
+      cases hb : lb.buf with
+      | nil => exact absurd hb hemp
+      | cons c t => simp [blen]; have := Char.utf8Size_pos c; omega
+    exact checkKill_span (a := 0) (b := blen lb.buf) (x := x) (y := y) (z := z)
+      (by simp [spanOf, hemp', hpos]) hbuf hx hy rfl (by simp [killedText]) rfl
 
 theorem copy_endOfBuffer_is_span (S : Segmenter) (U : UData) (lb : LB) (r : Option Text)
     (h : WF lb) (hrun : LB.copy S U lb .endOfBuffer = .ok r) :
